@@ -1038,9 +1038,12 @@ func (val Value) HasIndex(key Value) Value {
 //
 // This method will panic if the receiver is not a set, or if it is a null set.
 func (val Value) HasElement(elem Value) Value {
-	if val.IsMarked() || elem.IsMarked() {
+	if val.IsMarked() || elem.ContainsMarked() {
 		val, valMarks := val.Unmark()
-		elem, elemMarks := elem.Unmark()
+		// Set members never carry marks, and the set's hash function refuses
+		// values with marks nested inside them, so the candidate element must
+		// be unmarked deeply; all of its marks transfer to the result.
+		elem, elemMarks := elem.UnmarkDeep()
 		return val.HasElement(elem).WithMarks(valMarks, elemMarks)
 	}
 
